@@ -125,6 +125,16 @@ def check(repo: Repo, R) -> None:
         for lab, e in cands:
             ok, detail = is_fresh(e, mod, defs, fi, c)
             R.check(ok, rule, key_of(fi, f"{ast.unparse(c)[:60]}::{lab}"), fi.at(c), f"`{ast.unparse(c)[:80]}` — {lab}: {detail}", why=why)
+    # `flatname(avoid=module.namespace)` is only as good as the namespace: whatever a module still holds under a name is
+    # listed there — a displaced holder leaves every per-kind container (C18.1 clause)
+    from . import c18 as _c18, shared as _sh5
+    if "c05" not in _sh5.ATTACHING:
+      _sh5.ATTACHING.append("c18")
+      try:
+        R.run(_c18.check, repo, _sh5.Retag(R, lambda r, k: "C05.4-namespace-lists-every-holder" if r.startswith("C18.1") and k.startswith("hdl21/module.py") else None,
+                                           "an instance bundle displaced by a signal of its name stays in `instbundles`; elaborating it pops the designer's signal out of the namespace, and the next invented name equal to it is handed out unsuffixed: two nets become one"))
+      finally:
+        _sh5.ATTACHING.pop()
     R.floor(rule, 5)  # 6 on the reference tree; two sites may legitimately share one flatname call
 
     # ---- flatname only returns checked names
